@@ -291,3 +291,138 @@ def idx_form(idx):
 def route_name(args):
     return ','.join(k for k in ('min', 'max', 'n', 'h')
                     if not (args[k] == NONE if k == 'n' else is_none_q(args[k])))
+
+
+# ------------------------------------------------------------------ histories: shared grid object, caller-owned arrays
+QUERIES = ['lite', 'sides', 'index', 'sub']
+
+
+def lite_of(p):
+    der = proj_derived(p)
+    axes = proj_part(p)
+    return [{'axis': a, 'd': d} for a, d in zip(axes, der)]
+
+
+def hist_query(p, q, sc_nodes):
+    if q == 'lite':
+        return lite_of(p)
+    if q == 'sides':
+        uni = p.is_uniform_byaxis
+        sides = p.cell_sides
+        return [qj(sides[k]) if uni[k] else NONEQ for k in range(p.ndim)]
+    if q == 'index':
+        out = []
+        for k in range(p.ndim):
+            row = []
+            for j in range(len(sc_nodes[k])):
+                pt = [flt(sc_nodes[a][0]) for a in range(p.ndim)]
+                pt[k] = flt(sc_nodes[k][j])
+                r = p.index(pt[0] if p.ndim == 1 else pt)
+                r = r if p.ndim == 1 else r[k]
+                row.append(int(r) if isinstance(r, (int, np.integer)) else -99)
+            out.append(row)
+        return out
+    if q == 'sub':
+        return lite_of(p[1:] if p.shape[0] > 1 else p)
+    raise ValueError(q)
+
+
+def returned_arrays(p, attr):
+    """the arrays a caller gets from attribute `attr` (list of ndarrays)"""
+    if attr == 'cell_sides':
+        return [p.cell_sides]
+    if attr == 'coord_vectors':
+        return list(p.coord_vectors)
+    if attr == 'min_pt':
+        return [p.min_pt]
+    if attr == 'max_pt':
+        return [p.max_pt]
+    if attr == 'cell_boundary_vecs':
+        return list(p.cell_boundary_vecs)
+    if attr == 'meshgrid':
+        return list(p.meshgrid)
+    if attr == 'grid_stride':
+        return [p.grid.stride]
+    if attr == 'cell_sizes_vecs':
+        return list(p.cell_sizes_vecs)
+    if attr == 'extent':
+        return [p.extent]
+    if attr == 'grid_min_pt':
+        return [p.grid.min_pt]
+    raise ValueError(attr)
+
+
+def run_part_history(sc, objs, hist):
+    """Replays one behaviour of PartHist on real objects. The coordinate / limit arrays are owned by the caller
+    (float64, 1-d, contiguous: exactly the internal representation), ONE RectGrid object is shared."""
+    nodes_arr = [np.array([flt(v) for v in cv], dtype=np.float64) for cv in sc['nodes']]
+    lim_arr = [(np.array([flt(v) for v in l['min']], dtype=np.float64), np.array([flt(v) for v in l['max']], dtype=np.float64))
+               for l in sc['lims']]
+    G = RectGrid(*nodes_arr)
+    parts = []
+    steps = []
+    for st in hist:
+        rec = {'a': st['a'], 'i': st['i'], 'q': st['q'], 'attr': st['attr'], 'route': st['route'], 'lim': st['lim'],
+               'obs': [], 'obs_first': [], 'err': ''}
+        steps.append(rec)
+        try:
+            if st['a'] == 'C':
+                mn, mx = lim_arr[st['lim'] - 1]
+                r = st['route']
+                if r == 'rect_shared':
+                    parts.append(RectPartition(IntervalProd(mn, mx), G))
+                elif r == 'fromgrid_shared':
+                    parts.append(uniform_partition_fromgrid(G, min_pt=mn, max_pt=mx))
+                elif r == 'rect_fresh':
+                    parts.append(RectPartition(IntervalProd(mn, mx), RectGrid(*nodes_arr)))
+                elif r == 'nonuniform':
+                    parts.append(nonuniform_partition(*nodes_arr, min_pt=mn, max_pt=mx))
+                else:
+                    raise ValueError(r)
+            elif st['a'] == 'Q':
+                rec['obs'] = hist_query(parts[st['i'] - 1], st['q'], sc['nodes'])
+            elif st['a'] == 'MC':
+                if st['attr'] == 'nodes':
+                    for a in nodes_arr:
+                        a += 1.0
+                elif st['attr'] == 'min':
+                    for mn, mx in lim_arr:
+                        mn -= 1.0
+                else:
+                    for mn, mx in lim_arr:
+                        mx += 1.0
+            elif st['a'] == 'MR':
+                for a in returned_arrays(parts[st['i'] - 1], st['attr']):
+                    if isinstance(a, np.ndarray) and a.flags.writeable:
+                        a[...] = a + 1.0
+            elif st['a'] == 'SWEEP':
+                first = [{q: hist_query(p, q, sc['nodes']) for q in QUERIES} for p in parts]
+                second = [None] * len(parts)
+                for i in reversed(range(len(parts))):
+                    second[i] = {q: hist_query(parts[i], q, sc['nodes']) for q in reversed(QUERIES)}
+                rec['obs_first'] = first
+                rec['obs'] = second
+        except Exception as e:
+            rec['err'] = type(e).__name__
+            rec['errmsg'] = '%s: %s' % (type(e).__name__, str(e)[:140])
+            break
+    return steps
+
+
+def lite_same(ref, obs):
+    if len(ref) != len(obs):
+        return False
+    for r, o in zip(ref, obs):
+        if r['axis'] != o['axis']:
+            return False
+        one = len(r['axis']['nodes']) == 1 and r['axis']['min'] != r['axis']['max']
+        for f in ('bdry', 'sizes', 'frac', 'nob', 'uniform', 'side', 'extent'):
+            if f == 'sizes' and one:
+                continue
+            if r['d'][f] != o['d'][f]:
+                return False
+    return True
+
+
+def ans_same(q, ref, obs):
+    return lite_same(ref, obs) if q in ('lite', 'sub') else ref == obs
